@@ -282,7 +282,40 @@ def _nested_union_cases(tier):
                     {"component": "M", "key": f"nested-union:{name}/{comb}/{where}", "instances": insts}]}}
 
 
+def _usage_cases(tier):
+    """The model is ALSO the body of an operation (multipart / form / JSON, or JSON in one operation and multipart in another):
+    how a class is used must not change its plain JSON round trip (undeclared keys included)."""
+    ok = {"204": {"description": "n"}}
+    mref = {"$ref": "#/components/schemas/M"}
+    body = lambda m: {"required": True, "content": {m: {"schema": mref}}}  # noqa: E731
+    usages = {
+        "multipart": {"/b": {"post": {"operationId": "sendM", "requestBody": body("multipart/form-data"), "responses": ok}}},
+        "form": {"/b": {"post": {"operationId": "sendF", "requestBody": body("application/x-www-form-urlencoded"), "responses": ok}}},
+        "json-then-multipart": {"/j": {"post": {"operationId": "sendJ", "requestBody": body("application/json"), "responses": ok}},
+                                "/m": {"post": {"operationId": "sendM", "requestBody": body("multipart/form-data"), "responses": ok}}},
+        "multipart-then-json": {"/m": {"post": {"operationId": "sendM", "requestBody": body("multipart/form-data"), "responses": ok}},
+                                "/j": {"post": {"operationId": "sendJ", "requestBody": body("application/json"), "responses": ok}}},
+        "response": {"/r": {"get": {"operationId": "getM", "responses": {"200": {"description": "d", "content": {"application/json": {"schema": mref}}}}}}},
+    }
+    kinds = list(K.ATOMS) + [["array", "str"], ["array", "model_ref"], ["union", "int", "str"], ["nullable", "str", "t31"]]
+    for kind in kinds:
+        for addl, aname in ((None, "default"), ({"type": "string"}, "typed-str"), ({"$ref": "#/components/schemas/Ref"}, "typed-model")):
+            for usage, paths in usages.items():
+                comps = {}
+                if aname == "typed-model":
+                    K.schema("model_ref", comps)
+                doc = _model_doc([("p", kind), ("q", "int")], ["q"], comps=comps, addl=copy.deepcopy(addl))
+                doc["paths"] = copy.deepcopy(paths)
+                extra = {"default": {"n": [1, None]}, "typed-str": "ev", "typed-model": {"z": 5}}[aname]
+                insts = _instances([("p", kind), ("q", "int")], ["q"], extras_ok=True, extra_value=extra)
+                if len(insts) > 12:
+                    insts = insts[:11] + insts[-1:]
+                yield {"labels": [f"kind={K.kstr(kind)}", f"addl={aname}", f"used-as={usage}"], "payload": {"doc": doc, "options": {}, "targets": [
+                    {"component": "M", "key": f"usage:{usage}/{K.kstr(kind)}/{aname}", "props": {"p": [K.kstr(kind), False], "q": ["int", True]}, "instances": insts}]}}
+
+
 def cases(tier):
+    yield from _usage_cases(tier)
     yield from _family_cases(tier)
     yield from _nested_union_cases(tier)
     yield from _single_cases(tier)
@@ -404,6 +437,11 @@ def find_class(res, sb, component):
         if m["name"] == f"/components/schemas/{component}":
             mod = sb.mod(f"models.{m['module']}")
             return getattr(mod, m["class"])
+    # a schema used as a multipart body is re-registered by the generator under the body's name: find it by class name
+    norm = lambda t: "".join(ch for ch in t if ch.isalnum()).lower()  # noqa: E731
+    alt = [m for m in res.models if not m["name"].startswith("/components/") and norm(m["class"]) == norm(component)]
+    if len(alt) == 1:
+        return getattr(sb.mod(f"models.{alt[0]['module']}"), alt[0]["class"])
     return None
 
 
